@@ -34,6 +34,7 @@ Further SUPPORTING theorems about the model:
 import DafRel.Lemmas.Conform
 import DafRel.Lemmas.ConformSound
 import DafRel.Lemmas.JoinFactory
+import DafRel.Bridge.SqlOps
 
 namespace DafRel.Props.C17
 
@@ -157,5 +158,12 @@ example : raw1.RawSql := ⟨rfl, rfl, by decide, rfl⟩
 example : (conform [] 20 raw1).toOption.map
     (fun r => ((r.get raw1).isSelect, (r.get raw1).slots.proj, (r.get raw1).skipTo.columns)) =
       some (true, some [ta, tc], [ta, tb, tc]) := by decide
+
+/-- Tie to the source: `sql.Select.apply_skip` - the one place that builds the operation nodes between a `Select`
+marker and its `skip_to` from the recorded slots (what the coherence clause of this property is about) - is, as
+translated from the current Python source on this run (translator T-f), the model's `applySkip`. -/
+theorem bridge_select_apply_skip (skipTo : Rel) (sl : Slots) :
+    Gen.Select_apply_skip skipTo sl = applySkip skipTo sl :=
+  Bridge.Select_apply_skip_eq skipTo sl
 
 end DafRel.Props.C17
